@@ -371,7 +371,7 @@ PROPS["C04"] = mux_prop(
     assumptions=[], explanation="The conditions under which the pinned tree deadlocked (threshold above the advertised window) as a solver query over all option values, plus the non-blocking steps progress relies on.")
 
 PROPS["C05"] = mux_prop(
-    "C05", pick("c05_", extra=["c02_w_plain_l0", "c02_w_plain_l1", "c02_w_vec_0_0", "c02_r_rem0_q0_cap1", "c02_r_rem0_q1_cap1", "c02_r_uninit_rem0_q1_cap3", "c02_r_uninit_rem2_q0_cap1", "c10_finish_est", "c10_finish_est_readclosed", "c06_peer_reset_app_view",
+    "C05", pick("c05_", extra=["c02_w_plain_l0", "c02_w_plain_l1", "c02_w_vec_0_0", "c02_w_vec_one", "c02_w_vec_1_2", "c02_r_rem0_q0_cap1", "c02_r_rem0_q1_cap1", "c02_r_uninit_rem0_q1_cap3", "c02_r_uninit_rem2_q0_cap1", "c10_finish_est", "c10_finish_est_readclosed", "c06_peer_reset_app_view",
                                "c10_reset_est", "c10_reset_est_full", "c06_local_drop"]),
     thorough_only={"c02_w_vec_0_0"},
     note="end-of-stream only when the sender is gone and the queue is drained; empty writes; shutdown once; BrokenPipe afterwards",
